@@ -515,9 +515,7 @@ Definition rv_inv (fuel : nat) (x : rnum) : option rnum :=
 Definition rv_div (fuel : nat) (x y : rnum) : option rnum :=
   match rv_inv fuel y with Some i => rv_mul fuel x i | None => None end.
 
-(* annihilator of x^n from p(x) = 0:  Res_t (p(t), z - t^n)  (same degree as p) *)
-Definition ann_pow (p : poly) (n : nat) : poly :=
-  bires (bp_of_upoly p) (([0; 1] : poly) :: repeat ([] : poly) (Nat.pred n) ++ [[-1]]).
+(* the annihilator of x^n is RefAlg.ann_pow: Res_t (p(t), z - t^n), same degree as p *)
 (* enclosure of x^n for x in the open interval (lo, hi) (or the point lo = hi) *)
 Definition iv_pow_q (n : nat) (lo hi : rat) : rat * rat :=
   let pl := q_pow lo (N.of_nat n) in
